@@ -40,6 +40,8 @@ DEFAULT_PROFILE = {
     "subst": 0.10, "comment": 0.15, "point_comment": 0.03, "reply": 0.4, "bookmark": 0.06, "proof": 0.05,
     "hyperlink": 0.05, "field": 0.04, "header": 0.25, "footer": 0.2, "fmt": 0.45, "empty_run": 0.04,
     "span": 0.12, "vmerge": 0.08, "overlap_comment": 0.06, "para_mark_rev": 0.0, "sect_break": 0.04, "comment_in_ins": 0.3, "multi_author": True, "literal_tab": 0.02,
+    # off by default (switched on by the profiles of the checks that need them)
+    "shared_rev_id": 0.0, "odd_rev_id": 0.0, "shuffle_comments": 0.0, "comment_id_gap": 0.0,
 }
 
 
@@ -164,11 +166,19 @@ class Gen:
     def rev(self):
         self.rev_id += 1
         a = self.rng.choice(AUTHORS if self.p["multi_author"] else AUTHORS[:1])
-        return {"id": str(self.rev_id), "author": a, "date": self.rng.choice(DATES)}
+        rid = str(self.rev_id)
+        if self.p["odd_rev_id"] and self.rng.random() < self.p["odd_rev_id"]:
+            # ids other producers write: prefixed, not a whole number
+            rid = self.rng.choice(["x" + rid, rid + ".5", "rev-" + rid])
+            self.features.add("odd_rev_id")
+        return {"id": rid, "author": a, "date": self.rng.choice(DATES)}
 
     def new_comment(self, parent=None):
         r = self.rng
         self.com_id += 1
+        if self.p["comment_id_gap"] and r.random() < self.p["comment_id_gap"]:
+            self.com_id += r.randint(1, 3)      # ids need not be consecutive
+            self.features.add("comment_id_gap")
         cid = str(self.com_id)
         c = {"id": cid, "author": r.choice(AUTHORS), "date": r.choice(DATES[:3]) if r.random() < 0.9 else None,
              "initials": None, "paras": [{"para_id": "%08X" % r.randint(1, 0x7FFFFFFF), "text": [self.phrase(r.randint(1, 5))]}],
@@ -230,6 +240,9 @@ class Gen:
                 d, a = self.rev(), self.rev()
                 if r.random() < 0.7:
                     a["author"] = d["author"]
+                if self.p["shared_rev_id"] and r.random() < self.p["shared_rev_id"]:
+                    a["id"] = d["id"]          # some producers give both halves of a replacement one id
+                    self.features.add("shared_rev_id")
                 nodes.append({"k": "del", **d, "runs": self.runs_for(text, deleted=True)})
                 nodes.append({"k": "ins", **a, "ch": [{"k": "r", "run": ru} for ru in self.runs_for(self.phrase())]})
                 self.features.add("subst")
@@ -429,6 +442,10 @@ class Gen:
                 if parts[k] and r.random() < 0.6:
                     parts[k] = "unrelated"
             self.features.add("unrelated_parts")
+        if self.p["shuffle_comments"] and len(self.comments) > 1 and r.random() < self.p["shuffle_comments"]:
+            # the order of the entries in comments.xml is not the order of the ids
+            r.shuffle(self.comments)
+            self.features.add("shuffle_comments")
         doc["comments"] = self.comments
         doc["parts"] = parts
         doc["comments_ex"], doc["comments_ids"], doc["comments_cex"] = ex, ids, cex
